@@ -23,6 +23,8 @@ STRUCTS = {
            F("count", ("u", 32), miss=("def", "(u 0)"))],
     "DB": [F("field1", "str", token=0x2d82), F("field2", ("u", 32), miss=("def", "(u 0)"), token=0x2d83), F("items", ("i", 32), dup="dup", token=0x2d84),
            F("last", ("i", 64), dup="last", miss=("def", "(none)"), token=0x2d85), F("req", "bool", token=0x2d86)],
+    "DG": [F("kind", "str", token=0x00e1), F("name", "str", miss=("def", "(str -)"), token=0x001b), F("nums", ("i", 32), dup="dup", token=0x0165),
+           F("flag", "bool", token=0x02ff)],
     "DSub": [F("id", ("u", 32)), F("tag", "str", miss=("def", "(str -)")), F("vals", ("u", 8), key="val", dup="dup")],
     "DC": [F("name", "str"), F("subs", ("derived", "DSub"), key="sub", dup="dup"), F("opt_sub", ("derived", "DSub"), miss=("def", "(none)")),
            F("date", "date", dup="last", miss=("def", "(date 1444 11 11 0)")), F("level", ("u", 8), key="lvl", miss=("def", "(u 7)"))],
